@@ -17,8 +17,10 @@ def run(res, tier):
         '(model behaviours ⊇ implementation behaviours)',
         'IncRef/DecRef of the strand\'s own reference counter are folded into the neighbouring steps (C03); happens-before '
         'between consecutive jobs is C04',
-        'strands over strands: proved as contract preservation (refines_executor_contract + quiescent_all_done + '
-        'never_blocks); the composition itself is argued by trace inclusion, and exercised by the tower scenarios',
+        'strands over strands: mechanised (ExecContract, strand_refines_contract, tower_satisfies_contract, '
+        'tower_level_properties, tower_quiescent_all_done for towers of any height over any contract-honouring base); the '
+        'composition over-approximates the code (the upper thread does not wait for the lower Submit it called); the '
+        'harness tower scenarios validate the projection onto the traced level',
     ]
     conc.concurrent_check(
         res, 'C07', tier, 'c07.cpp', 'strand', RULES,
